@@ -13,8 +13,8 @@ LEVEL = "exploration"
 
 def plan(tier, seed):
     n = 12 if tier == "quick" else 16
-    per = 2500 if tier == "quick" else 60000
-    specs = [{"name": f"mix{i}", "index": i, "cases": per, "budget_s": 60 if tier == "quick" else 900}
+    per = 2500 if tier == "quick" else 1000000
+    specs = [{"name": f"mix{i}", "index": i, "cases": per, "budget_s": 60 if tier == "quick" else 420}
              for i in range(n)]
     specs.append({"name": "grid", "index": 99, "grid": True, "cases": 0, "budget_s": 120 if tier == "quick" else 900})
     return specs
